@@ -82,10 +82,10 @@ static long var_read_failures;
 static int var_read(const struct cat_variable *v)
 {
         int p = (int)(v - vars);
-        if (srnd() % 8 != 0) return 0;
-        var_read_failures++;
-        if (phase == 1 && p < MAXP) atomic_fetch_add(&delivered[p], 1);
-        return 1;
+        bool fail = srnd() % 8 == 0;
+        if (fail) var_read_failures++;
+        if (phase == 1 && p < MAXP && (fail || cmds[p].read == NULL)) atomic_fetch_add(&delivered[p], 1);      /* a command without handlers: its READ event is delivered when its variable is read */
+        return fail ? 1 : 0;
 }
 static cat_return_state help_run(const struct cat_command *cmd) { (void)cmd; return CAT_RETURN_STATE_PRINT_CMD_LIST_OK; }
 static cat_return_state hold_run(const struct cat_command *cmd) { (void)cmd; if (srnd() % 3 == 0) { holds_entered++; return CAT_RETURN_STATE_HOLD; } return CAT_RETURN_STATE_OK; }
@@ -100,6 +100,7 @@ static void *producer(void *vp)
                 unsigned r = (unsigned)(PR() % 100);
                 if (r < 60) {
                         cat_status st; unsigned k = (unsigned)(PR() % 3);
+                        if (pa->id == 2) k = 1;
                         if (k == 0) st = cat_trigger_unsolicited_event(&at, &cmds[pa->id], (PR() & 1) ? CAT_CMD_TYPE_READ : CAT_CMD_TYPE_TEST);
                         else if (k == 1) st = cat_trigger_unsolicited_read(&at, &cmds[pa->id]);
                         else st = cat_trigger_unsolicited_test(&at, &cmds[pa->id]);
@@ -145,6 +146,9 @@ int main(int argc, char **argv)
                 cmds[p].name = names[p]; cmds[p].read = ev_handler; cmds[p].test = ev_handler;
                 vars[p].type = CAT_VAR_UINT_DEC; vars[p].data = &vdata[p]; vars[p].data_size = 1; vars[p].read = var_read; cmds[p].var = &vars[p]; cmds[p].var_num = 1;
         }
+        /* flags that concern command lines only: events of these commands are accepted and delivered like any other */
+        cmds[1].disable = true; cmds[5].disable = true;
+        cmds[2].read = NULL; cmds[2].test = NULL; cmds[2].implicit_write = true;      /* producer 2 raises READ events only (see producer()) */
         cmds[MAXP].name = "+HOLD"; cmds[MAXP].run = hold_run;
         cmds[MAXP + 1].name = "+W"; cmds[MAXP + 1].write = wr_handler;
         cmds[MAXP + 2].name = "+HELP"; cmds[MAXP + 2].run = help_run;      /* the command list walks the whole table, one step per service call */
